@@ -23,7 +23,11 @@ func Register() {
 			"token.mint_one_over_cap_rejected", "token.supply_exactly_at_cap", "token.burn_left_fractional_supply",
 			"token.edit_max_with_fractional_supply", "token.edit_max_exactly_circulating", "token.edit_max_below_rejected",
 			"token.owner_transferred", "token.mint_by_new_owner", "token.owner_race_planned", "token.fee_split_both_ways",
-			"token.issue_initial_at_limit", "token.issue_max_at_limit", "token.params_changed", "token.burn_by_non_owner"},
+			"token.issue_initial_at_limit", "token.issue_max_at_limit", "token.params_changed", "token.burn_by_non_owner",
+			"C09.ghost_supply_checks", "token.ghost_created_by_failtail", "token.ghost_created_by_out_of_gas",
+			"token.ghost_reissued_other_minunit", "token.ghost_reissued_other_symbol", "token.ghost_op_attempted",
+			"token.ghost_op_attempted.mint", "token.ghost_op_attempted.burn", "token.ghost_op_attempted.edit",
+			"token.ghost_op_attempted.transfer", "token.ghost_op_attempted.to_erc20", "token.ghost_min_unit_op_after_symbol_taken"},
 		Rule: "a run is non-trivial when at least two accepted issues were judged for identity, more than two accepted edit/mint/transfer messages for authority, more than two supply-versus-cap comparisons and at least two issue/mint fee splits were made; distinct = different fingerprint of the executed (operation kind, outcome class) sequence",
 	})
 	engine.RegisterProperty(&engine.Property{
